@@ -84,7 +84,7 @@ def _fmt_of(prim) -> Optional[str]:
 
 
 def _is_target(o) -> bool:
-    return isinstance(o, (se.QuantizedFloatBase, se.FixedPoint, se.QuantizedNumPyArray))
+    return isinstance(o, (se.QuantizedFloatBase, se.FixedPoint, se.QuantizedNumPyArray, se.EncodedTupleCoord))
 
 
 def _own_step(o) -> bool:
@@ -122,7 +122,10 @@ def discover() -> List[Inst]:
     roots += objwalk.module_roots(templates, llanim, mesh)
     found = objwalk.walk(roots, _is_target)
     by_ident: Dict[tuple, Inst] = {}
+    wrappers = [(path, o) for path, o in found if isinstance(o, se.EncodedTupleCoord)]
     for path, o in found:
+        if isinstance(o, se.EncodedTupleCoord):
+            continue
         kind, ident, site = describe(o)
         inst = by_ident.get(ident)
         if inst is None:
@@ -144,7 +147,24 @@ def discover() -> List[Inst]:
         for n, i in enumerate(insts):
             if sites.count(i.site) > 1:
                 i.site = f"{i.site}#{n}"
-    return insts
+    # vector / tuple wrappers around the element quantisers (Vector3U16(..), FixedPointVector3U16(..), ...)
+    site_of = {i.ident: i.site for i in insts}
+    by_w: Dict[tuple, Inst] = {}
+    for path, o in wrappers:
+        elems = tuple(getattr(o, "_elem_specs", ()) or ())
+        if not elems or not all(_is_target(e) and not isinstance(e, se.EncodedTupleCoord) for e in elems):
+            continue
+        eids = tuple(describe(e)[1] for e in elems)
+        ident = ("tuple", type(o).__name__, eids)
+        inst = by_w.get(ident)
+        if inst is None:
+            names = [site_of.get(e, describe(el)[2]) for e, el in zip(eids, elems)]
+            inner = names[0] if len(set(names)) == 1 else " | ".join(names)
+            inst = by_w[ident] = Inst("tuple", o, ident, f"{type(o).__name__}[{inner}]")
+        inst.n += 1
+        if len(inst.paths) < 2:
+            inst.paths.append(path)
+    return insts + sorted(by_w.values(), key=lambda i: repr(i.ident))
 
 
 # ---- evaluation ------------------------------------------------------------------------------------------------
@@ -157,8 +177,8 @@ def _bits(f: float) -> bytes:
     return struct.pack("<d", f)
 
 
-def eval_scalar(part: Part, inst: Inst, duration: Optional[float] = None, wire: bool = True):
-    """One full sweep of a QuantizedFloatBase instance (optionally under a duration context)."""
+def eval_scalar(part, inst: Inst, duration: Optional[float] = None, wire: bool = True, pod: bool = False):
+    """One full sweep of a QuantizedFloatBase instance (optionally under a duration context) in one reader mode."""
     o = inst.obj
     site = inst.site
     fmt = _fmt_of(o._child_spec)
@@ -187,7 +207,7 @@ def eval_scalar(part: Part, inst: Inst, duration: Optional[float] = None, wire: 
     bad = 0
     for raw in range(lo_raw, hi_raw + 1):
         try:
-            f = dec(raw, ctx)
+            f = dec(raw, ctx, pod)
         except Exception as e:
             part.violation("degenerate" if degenerate else "inverse", site, wit(raw), f"decode({raw}) raised {e!r}")
             bad += 1
@@ -221,7 +241,7 @@ def eval_scalar(part: Part, inst: Inst, duration: Optional[float] = None, wire: 
         prev = f
         if f == 0.0:
             zeros.append(raw)
-    tag = (site, duration)
+    tag = (site, duration, pod)
     if degenerate:
         try:
             r = enc(0.0, ctx)
@@ -263,7 +283,7 @@ def eval_scalar(part: Part, inst: Inst, duration: Optional[float] = None, wire: 
             for raw in range(lo_raw, hi_raw + 1):
                 data = st.pack(raw)
                 try:
-                    val = se.BufferReader(endian, data).read(o, ctx=ctx)
+                    val = se.BufferReader(endian, data, pod).read(o, ctx=ctx)
                     wr = se.BufferWriter(endian)
                     wr.write(o, val, ctx=ctx)
                     out = bytes(wr.buffer)
@@ -275,7 +295,7 @@ def eval_scalar(part: Part, inst: Inst, duration: Optional[float] = None, wire: 
     del root
 
 
-def eval_fixed(part: Part, inst: Inst):
+def eval_fixed(part, inst: Inst, pod: bool = False):
     o = inst.obj
     site = inst.site
     fmt = _fmt_of(o._ser_spec)
@@ -295,7 +315,7 @@ def eval_fixed(part: Part, inst: Inst):
             w = {"site": site, "raw": raw, "path": "wire" + endian}
             data = st.pack(raw)
             try:
-                f = se.BufferReader(endian, data).read(o)
+                f = se.BufferReader(endian, data, pod).read(o)
             except Exception as e:
                 part.violation("inverse", site, w, f"deserialize({data.hex()}) raised {e!r}")
                 prev = None
@@ -325,13 +345,13 @@ def eval_fixed(part: Part, inst: Inst):
         if last is not None and last != exp_max:
             part.violation("endpoint", site, {"site": site, "raw": hi_raw, "path": "wire" + endian},
                            f"decode(max raw) = {last!r}; a {'signed' if signed else 'unsigned'} {int_bits}.{frac} fixed-point format ends at {exp_max!r}")
-    tag = (site, None)
+    tag = (site, None, pod)
     part.mark_nontrivial((tag, "end", lo_raw))
     part.mark_nontrivial((tag, "end", hi_raw))
     part.outcome((tag, first, last))
 
 
-def eval_numpy(part: Part, inst: Inst):
+def eval_numpy(part, inst: Inst, pod: bool = False):
     o = inst.obj
     site = inst.site
     dt = np.dtype(o.dtype)
@@ -346,7 +366,7 @@ def eval_numpy(part: Part, inst: Inst):
         return {"site": site, "raw": int(raw), "path": path}
 
     try:
-        dec = np.asarray(o.decode(arr, None))
+        dec = np.asarray(o.decode(arr, None, pod))
         enc = np.asarray(o.encode(dec, None))
     except Exception as e:
         part.violation("inverse", site, wit(lo_raw), f"decode/encode of arange({n}) raised {e!r}")
@@ -390,7 +410,7 @@ def eval_numpy(part: Part, inst: Inst):
         part.count("evaluations", n)
         part.count("wire_evaluations", n)
         try:
-            val = se.BufferReader(endian, data).read(o)
+            val = se.BufferReader(endian, data, pod).read(o)
             wr = se.BufferWriter(endian)
             wr.write(o, val)
             out = bytes(wr.buffer)
@@ -405,12 +425,104 @@ def eval_numpy(part: Part, inst: Inst):
             else:
                 i = int(np.nonzero(a != b)[0][0])
                 part.violation("inverse", site, wit(int(a[i]), "wire"), f"raw {int(a[i])} read through the array spec is written back as {int(b[i])}")
-    tag = (site, None)
+    tag = (site, None, pod)
     part.mark_nontrivial((tag, "end", lo_raw))
     part.mark_nontrivial((tag, "end", hi_raw))
     for z in zeros:
         part.mark_nontrivial((tag, "zero", z))
     part.outcome((tag, first, last, tuple(zeros), len(badi)))
+
+
+class ModePart:
+    """View of a Part for one reader mode.  pod=False: violations go to the base site.  pod=True: the site gets the suffix
+    ``:pod`` and the witness ``pod: true`` -- but a failure whose (clause, raw, duration) already failed identically placed in the
+    non-pod sweep of the same instance is attributed to the base site only (one root cause, one site), so only pod-specific
+    failures appear under ``...:pod``."""
+
+    def __init__(self, part, pod: bool, skip: Optional[set] = None):
+        self.part, self.pod, self.skip = part, pod, skip or set()
+        self.failed: set = set()
+
+    def violation(self, clause, site, witness, detail=""):
+        key = (clause, witness.get("raw"), witness.get("duration"))
+        self.failed.add(key)
+        if self.pod:
+            if key in self.skip:
+                self.part.count("pod_failures_same_as_nonpod")
+                return
+            witness = dict(witness, pod=True, site=site + ":pod")
+            site = site + ":pod"
+        self.part.violation(clause, site, witness, detail)
+
+    def count(self, key, n=1):
+        self.part.count(key, n)
+        if self.pod and key == "evaluations":
+            self.part.count("pod_evaluations", n)
+
+    def mark_nontrivial(self, key):
+        self.part.mark_nontrivial(key)
+
+    def outcome(self, key):
+        self.part.outcome(key)
+
+
+def _elem_fmt(e) -> Optional[str]:
+    return _fmt_of(e._ser_spec if isinstance(e, se.FixedPoint) else e._child_spec)
+
+
+def eval_tuple(part, inst: Inst, pod: bool = False, endians=("<",)):
+    """Wire path through a vector wrapper: every raw value placed in all components, read (tuple in pod mode, coord object
+    otherwise) and written back.  A failure that the offending element shows on its own in the same mode is the element's."""
+    o = inst.obj
+    site = inst.site
+    elems = tuple(o._elem_specs)
+    fmts = [_elem_fmt(e) for e in elems]
+    fmt = fmts[0]
+    wname, lo_raw, hi_raw = WIRE[fmt]
+    n = hi_raw - lo_raw + 1
+    first = last = None
+    bad = 0
+    for endian in endians:
+        st = struct.Struct(endian + fmt)
+        part.count("evaluations", n)
+        part.count("wrapper_evaluations", n)
+        for raw in range(lo_raw, hi_raw + 1):
+            one = st.pack(raw)
+            data = one * len(elems)
+            w = {"site": site, "raw": raw, "path": "wire" + endian}
+            detail = None
+            try:
+                val = se.BufferReader(endian, data, pod).read(o)
+                wr = se.BufferWriter(endian)
+                wr.write(o, val)
+                out = bytes(wr.buffer)
+                if out != data:
+                    detail = f"wire bytes {data.hex()} read as {val!r} are written back as {out.hex()}"
+                if raw == lo_raw:
+                    first = tuple(val)
+                last = tuple(val)
+            except Exception as e:
+                detail = f"wire bytes {data.hex()} -> read/write raised {e!r}"
+            if detail is None:
+                continue
+            bad += 1
+            own_fault = False
+            for e in elems:  # does an element fail alone, same mode?
+                try:
+                    v1 = se.BufferReader(endian, one, pod).read(e)
+                    w1 = se.BufferWriter(endian)
+                    w1.write(e, v1)
+                    own_fault = own_fault or bytes(w1.buffer) != one
+                except Exception:
+                    own_fault = True
+            if own_fault:
+                part.count("wrapper_failures_attributed_to_element")
+            else:
+                part.violation("inverse", site, w, detail)
+    tag = (site, None, pod)
+    part.mark_nontrivial((tag, "end", lo_raw))
+    part.mark_nontrivial((tag, "end", hi_raw))
+    part.outcome((tag, repr(first), repr(last), bad))
 
 
 class WPart(Part):
@@ -439,6 +551,7 @@ class WPart(Part):
 
 
 _INSTS: List[Inst] = []
+_THOROUGH = False
 
 
 def _supported(inst: Inst) -> Optional[str]:
@@ -449,6 +562,9 @@ def _supported(inst: Inst) -> Optional[str]:
     if inst.kind == "fixed":
         fmt = _fmt_of(inst.obj._ser_spec)
         return None if fmt in WIRE else f"wire format {fmt!r} is not an 8/16-bit integer"
+    if inst.kind == "tuple":
+        fmts = {_elem_fmt(e) for e in inst.obj._elem_specs}
+        return None if len(fmts) == 1 and fmts <= set(WIRE) else f"element wire formats {sorted(map(repr, fmts))} not one 8/16-bit integer"
     dt = np.dtype(inst.obj.dtype)
     return None if (dt.kind, dt.itemsize) in NP_WIRE else f"dtype {dt.str} is not an 8/16-bit integer"
 
@@ -457,13 +573,23 @@ def _eval_unit(unit) -> dict:
     idx, duration, wire = unit
     inst = _INSTS[idx]
     part = WPart()
-    if inst.kind in ("qfloat", "qctx"):
-        eval_scalar(part, inst, duration, wire)
-    elif inst.kind == "fixed":
-        eval_fixed(part, inst)
-    else:
-        eval_numpy(part, inst)
+    _eval_both_modes(part, inst, duration, wire)
     return part.dump()
+
+
+def _eval_both_modes(part, inst: Inst, duration, wire: bool):
+    skip = None
+    for pod in (False, True):
+        mp = ModePart(part, pod, skip)
+        if inst.kind in ("qfloat", "qctx"):
+            eval_scalar(mp, inst, duration, wire, pod)
+        elif inst.kind == "fixed":
+            eval_fixed(mp, inst, pod)
+        elif inst.kind == "tuple":
+            eval_tuple(mp, inst, pod, ("<", ">") if _THOROUGH else ("<",))
+        else:
+            eval_numpy(mp, inst, pod)
+        skip = mp.failed
 
 
 def _probe_ctx(inst: Inst) -> Optional[str]:
@@ -480,8 +606,9 @@ def _probe_ctx(inst: Inst) -> Optional[str]:
 
 
 def run(run: Run):
-    global _INSTS
+    global _INSTS, _THOROUGH
     _INSTS = discover()
+    _THOROUGH = run.tier != "quick"
     if len(_INSTS) < 5:
         raise HarnessError(f"object walk found only {len(_INSTS)} quantiser parameterisations")
     durs = durations(run.tier)
@@ -506,11 +633,15 @@ def run(run: Run):
     units.sort(key=lambda u: (0 if u[2] else 1, u[0]))
     for d in pmap(_eval_unit, units, run.jobs, chunksize=1):
         run.merge(d)
-    for i in _INSTS[:3] + [x for x in _INSTS if x.kind != "qfloat"][:3]:
+    for i in _INSTS[:2] + [x for x in _INSTS if x.kind not in ("qfloat", "tuple")][:2] + [x for x in _INSTS if x.kind == "tuple"][:2]:
         run.sample({"site": i.site, "instances_sharing_it": i.n, "reached_via": i.paths[0][:200]})
-    run.rule = (f"object walk from SUBFIELD_SERIALIZERS + templates/llanim/mesh found {sum(i.n for i in _INSTS)} quantiser / fixed-point instances "
-                f"= {len(_INSTS)} distinct parameterisations; each swept over every raw value of its wire type (direct encode/decode + wire path in both "
-                f"byte orders); context-dependent ranges x {len(durs)} f32-exact durations. distinct_nontrivial = per (site, duration): the two end raw "
+    scal = [i for i in _INSTS if i.kind != "tuple"]
+    wrap = [i for i in _INSTS if i.kind == "tuple"]
+    run.rule = (f"object walk from SUBFIELD_SERIALIZERS + templates/llanim/mesh found {sum(i.n for i in scal)} quantiser / fixed-point instances "
+                f"= {len(scal)} distinct parameterisations, and {sum(i.n for i in wrap)} vector wrappers around them = {len(wrap)} distinct; each swept "
+                "over every raw value of its wire type in BOTH reader modes (pod=False and pod=True: decode(raw, ctx, pod) -> encode, and the "
+                f"BufferReader(pod)/BufferWriter path in both byte orders; wrappers: wire path, {'both byte orders' if _THOROUGH else 'little-endian'}); "
+                f"context-dependent ranges x {len(durs)} f32-exact durations. distinct_nontrivial = per (site, duration, mode): the two end raw "
                 "values and every raw value that decodes to +-0.0 (the zero-preserving path)")
     run.assumptions += [
         "sites are parameterisations (class, wire type, lower, upper, rounding mode, step) found by walking live objects; a quantiser only "
@@ -521,25 +652,25 @@ def run(run: Run):
         "duration 0.0 gives the degenerate range [0,0] on which inverse is unsatisfiable for any decoder into floats; only totality is demanded there",
         "durations are positive finite f32-exact values (the animation header stores an F32)",
         "decode(raw) == end compares Python floats with ==; encode of the ends is the inverse clause at the end raw values",
+        "pod mode: every clause is evaluated again with pod=True; a failure identical in (clause, raw, duration) to one of the non-pod sweep is "
+        "attributed to the base site only, pod-specific failures are reported under '<site>:pod'",
+        "vector wrappers are driven with the same raw value in every component; PackedQuat / template-level containers are C09's subject",
     ]
-    run.coverage_extra.update({"instances_found": sum(i.n for i in _INSTS), "distinct_parameterisations": len(_INSTS),
+    run.coverage_extra.update({"instances_found": sum(i.n for i in scal), "distinct_parameterisations": len(scal),
+                               "wrapper_instances_found": sum(i.n for i in wrap), "distinct_wrappers": len(wrap),
                                "sites": listing, "durations": len(durs), "units": len(units),
                                "failing_evaluations": {k[8:]: n for k, n in sorted(run.counters.items()) if k.startswith("failing:")}})
 
 
 def replay(w):
     insts = discover()
-    inst = next((i for i in insts if i.site == w["site"]), None)
+    want = w["site"]
+    base = want[:-4] if want.endswith(":pod") else want
+    inst = next((i for i in insts if i.site == base), None)
     if inst is None:
         return []
-    global _INSTS
-    _INSTS = insts
+    global _INSTS, _THOROUGH
+    _INSTS, _THOROUGH = insts, True
     part = WPart()
-    d = w.get("duration")
-    if inst.kind in ("qfloat", "qctx"):
-        eval_scalar(part, inst, d, True)
-    elif inst.kind == "fixed":
-        eval_fixed(part, inst)
-    else:
-        eval_numpy(part, inst)
-    return part.flat()
+    _eval_both_modes(part, inst, w.get("duration"), True)
+    return [v for v in part.flat() if v["site"] == want]
